@@ -98,3 +98,32 @@ fn c01_skip_length_limit() {
     kani::cover!(total == 255 && !ptr, "maximal uncompressed name");
     kani::cover!(total == 256, "one octet too long");
 }
+
+// @tier: thorough
+// @timeout: 7200
+// @mem: 40
+// @funcs: Opt::from_octets, Opt::check_slice, Opt::iter::<AllOptData>, OptIter::{next,next_step}, every EDNS option's parse_option (NSID, DAU/DHU/N3U, Expire, TcpKeepalive, Padding, ClientSubnet, Cookie, Chain, KeyTag, ExtendedError, unknown)
+// @bound: every OPT RDATA of exactly 8 fully symbolic octets (one option header with any code and any announced length + 4 data octets; attacker-controlled): validation and typed iteration over all known option types never panic, terminate after at most two items, and stay fused after the end / first error
+// @outside: longer option areas, several options; the OPT record header (needs record parsing, i.e. ParsedName::parse_ref)
+#[kani::proof]
+#[kani::unwind(8)]
+#[kani::stub(core::slice::index::slice_index_fail, crate::stubs::slice_index_fail)]
+fn c01_opt_options_total() {
+    use domain::base::name::Name;
+    use domain::base::opt::{AllOptData, Opt};
+    let buf: [u8; 8] = kani::any();
+    let opt = match Opt::from_octets(&buf[..]) {
+        Ok(o) => o,
+        Err(_) => return, // framing error: the option announces more data than there is
+    };
+    let mut it = opt.iter::<AllOptData<&[u8], Name<&[u8]>>>();
+    let a = it.next();
+    let b = it.next();
+    let c = it.next();
+    assert!(c.is_none());
+    if let Some(Err(_)) = a {
+        assert!(b.is_none());
+    }
+    kani::cover!(matches!(a, Some(Ok(_))) && b.is_none(), "one option parsed");
+    kani::cover!(matches!(a, Some(Err(_))), "malformed option rejected");
+}
